@@ -25,7 +25,7 @@ def run_case(case, taps='all'):
     if mode == 'src':
         return M.run_src(case['pipe'], case['src'], complete=case.get('complete', True),
                          timescale=case.get('timescale'), taps=taps, root=case.get('root', 'store'),
-                         dl_late=case.get('dl_late', False))
+                         dl_late=case.get('dl_late', False), source=case.get('source', 'subject'))
     raise C.MachineryError('unknown mode %r' % mode)
 
 
@@ -60,6 +60,23 @@ def op_names(pipe):
         else:
             out.append(o)
     return out
+
+
+def source_lost(trace, case):
+    """The first boundary of the pipeline must see exactly the events the driver pushed (a
+    prefix of them when the stream died): a pipeline that was never connected to its source
+    keeps every contract vacuously.  Returns a description of the difference, or None."""
+    if 'multi' in case:
+        return None
+    got = [(e['t'], e['k'][0]) for e in log_of(trace, [0])]
+    if case.get('mode', 'mux') == 'mux':
+        want = [(e['t'], e['k'][0]) for e in case['src'] if e.get('t') in ('c', 'n', 'd', 'e')]
+    else:
+        want = [('c', 0)] + [('n', 0) for _ in case['src']] + ([('d', 0)] if case.get('complete', True) else [])
+    died = trace['end']['t'] == 'error'
+    if got == want or (died and got == want[:len(got)]):
+        return None
+    return 'the driver pushed %d events, the first boundary saw %d' % (len(want), len(got))
 
 
 def tee_branches_alone(case):
@@ -150,10 +167,21 @@ def judge(V, cases, relevant, stats, family='', keep_traces=None, isolation=None
                          'mode': tr['mode'], 'src': tr['src'],
                          'timescale': cases[i].get('timescale'), 'multi': cases[i].get('multi'),
                          'root': cases[i].get('root', 'store'), 'dl_late': cases[i].get('dl_late', False),
-                         'share_ops': cases[i].get('share_ops', False), 'warmup': cases[i].get('warmup'), 'store_split': cases[i].get('store_split'), 'feedback': cases[i].get('feedback'),
+                         'share_ops': cases[i].get('share_ops', False), 'warmup': cases[i].get('warmup'), 'store_split': cases[i].get('store_split'), 'feedback': cases[i].get('feedback'), 'source': cases[i].get('source'),
                          'clauses': ['%s:%s' % pn for pn in names]},
                         '+'.join(sorted({n for _, n in mine})),
                         detail='first rejected at source step %s' % step)
+    for i, c in enumerate(cases):
+        lost = source_lost(traces[i], c)
+        if lost:
+            tr = traces[i]
+            V.violation({'family': family, 'ops': ' '.join(op_names(tr['pipe'])),
+                         'pipe': json.dumps(tr['pipe'], sort_keys=True), 'mode': tr['mode'], 'src': tr['src'],
+                         'timescale': c.get('timescale'), 'root': c.get('root', 'store'),
+                         'dl_late': c.get('dl_late', False), 'share_ops': c.get('share_ops', False),
+                         'warmup': c.get('warmup'), 'store_split': c.get('store_split'),
+                         'feedback': c.get('feedback'), 'source': c.get('source'), 'source_lost': True, 'clauses': ['source-events-lost']},
+                        'source-events-lost', detail=lost)
     stats['rejected'] = stats.get('rejected', 0) + len(rejected)
     # The taps are operators themselves: they change the operator graph (e.g. what a
     # nested tee_map sees as its source).  Every case is therefore also executed with
@@ -173,7 +201,7 @@ def judge(V, cases, relevant, stats, family='', keep_traces=None, isolation=None
                          'pipe': json.dumps(tr['pipe'], sort_keys=True), 'mode': tr['mode'],
                          'src': tr['src'], 'timescale': c.get('timescale'), 'untapped': True,
                          'multi': c.get('multi'), 'root': c.get('root', 'store'), 'dl_late': c.get('dl_late', False),
-                         'share_ops': c.get('share_ops', False), 'warmup': c.get('warmup'), 'store_split': c.get('store_split'), 'feedback': c.get('feedback'),
+                         'share_ops': c.get('share_ops', False), 'warmup': c.get('warmup'), 'store_split': c.get('store_split'), 'feedback': c.get('feedback'), 'source': c.get('source'),
                          'clauses': ['untapped-differs']}, 'untapped-differs',
                         detail='without inner taps: end=%s out=%s' % (u['end'], json.dumps(ends(u)[0])[:300]))
             stats['untapped_differs'] = stats.get('untapped_differs', 0) + 1
@@ -198,7 +226,16 @@ def replay(prop, path, relevant):
         case['store_split'] = w['store_split']
     if w.get('feedback'):
         case['feedback'] = w['feedback']
+    if w.get('source'):
+        case['source'] = w['source']
     tr = run_case(case)
+    if w.get('source_lost'):
+        lost = source_lost(tr, case)
+        print('source events:', lost or 'all seen')
+        if lost:
+            print('VIOLATION property=%s replay=%s clause=source-events-lost' % (prop, path))
+            return 1
+        return 0
     if w.get('untapped'):
         u = run_case(case, taps='ends')
         a = [(e['t'], e['k'], e['v']) for e in log_of(tr, [len(tr['pipe'])])]
